@@ -250,6 +250,26 @@ Definition crash_bytes (d : disk) (s : snap) (k : nat) : disk :=
   then mk_disk (Some (snap_bytes s)) (d_temps d)
   else mk_disk (d_local d) (d_temps d ++ [firstn k (snap_bytes s)]).
 
+(* persist() when its k-th step RETURNS AN ERROR instead of the process dying (a
+   failing write may have put [j] bytes of its chunk into the temp file first):
+   CreateTemp failed -> nothing was created; any later step -> fail()/cleanup()
+   close the temp file and os.Remove it, and persist returns before the rename and
+   before lastPersisted is advanced.  k beyond the last step: nothing fails. *)
+Definition remove_tmp (st : pstate) : disk := p_disk st.
+Definition fail_at (d : disk) (s : snap) (k j : nat) : disk :=
+  let st := fold_left run_pstep (firstn k (persist_steps s)) (mk_pstate d None) in
+  match nth_error (persist_steps s) k, p_tmp st with
+  | None, _ => after_crash st
+  | Some (PWrite c), Some t => remove_tmp (mk_pstate (p_disk st) (Some (t ++ firstn j c)))
+  | Some _, _ => remove_tmp st
+  end.
+(* the index of the named steps of persist(s): 0 = CreateTemp, 1 = Sync, 2 = Close, 3 = Rename *)
+Definition fault_step (s : snap) (which : nat) : nat :=
+  match which with
+  | O => O
+  | S w => (length (snap_lines s) + S w)%nat
+  end.
+
 (* ---- updater.go: parseHostFile *)
 (* bufio.ScanLines: split at '\n', drop one trailing '\r', a final unterminated
    line counts if non-empty.  (Lines beyond bufio's 64 KiB token limit make the
